@@ -58,9 +58,17 @@ def val(x):
     if isinstance(x, (int, float, np.integer, np.floating)) and not isinstance(x, bool): return repr(float(x))
     return 'NOTNUMBER:' + type(x).__name__
 for nm in names:
-    target = nm if mode in ('name', 'reloc') else os.path.join(arg, nm, 'library.yaml')
+    target = nm if mode in ('name', 'reloc', 'reload') else os.path.join(arg, nm, 'library.yaml')
     try:
         lib = GroupLibrary.Load(target)
+        if mode == 'reload':
+            # a caller empties what it got; loading the same library again must give the full library, not a remembered object
+            lib.contents.clear()
+            if isinstance(lib.uq_contents, dict):
+                lib.uq_contents.clear()
+            lib.scheme.patterns[:] = []
+            lib.scheme.remaps.clear()
+            lib = GroupLibrary.Load(target)
     except BaseException as e:
         out['libs'][nm] = {'error': type(e).__name__ + ': ' + str(e)[:200]}
         continue
@@ -223,6 +231,8 @@ def run(ctx):
         'reloc': fresh_load(ctx, 'reloc', '', names, {'pgradd_DATA_DIR': reloc}),
         # an empty override is "not set": the bundled directory is used
         'empty': fresh_load(ctx, 'name', '', names, {'pgradd_DATA_DIR': ''}),
+        # every library loaded twice in one process, the first result emptied by the caller in between
+        'reload': fresh_load(ctx, 'reload', '', names),
         'reloc-nodata': fresh_load(ctx, 'reloc', '', names, {'pgradd_DATA_DIR': reloc,
                                    'PYTHONPATH': nodata + os.pathsep + os.environ.get('PYTHONPATH', '')}),
     }
